@@ -2,6 +2,7 @@ import SeqVerif.Base.Proto
 import SeqVerif.Model.EvalTree
 import SeqVerif.Model.ActiveIndex
 import SeqVerif.Model.RangeGo
+import SeqVerif.Model.Bitmask
 /-!
 Driver for C02.  Lists are comma separated, `-` = empty; byte strings hex.  LID lists of `nodes`/`ortree`
 are given in iteration order (descending for `desc`).
@@ -10,6 +11,7 @@ are given in iteration order (descending for `desc`).
   nodes not <asc|desc> <xs> <lo> <hi>               -> ok <lids>
   nodes range <asc|desc> <lo> <hi>                  -> ok <lids>
   ortree <asc|desc> <l1;l2;...>                     -> ok <lids>
+  hasbits <bytes hex> <left> <right>                -> ok <0|1>   (util.Bitmask.HasBitsIn, C14's byte-level model)
   narrow <asc|desc> <lo> <hi> <posting ascending>   -> ok <lids>   (EvalTree.narrow: the posting list cut to the borders)
   rangego <asc|desc> <lo> <hi> <fuel>               -> ok <values> <ended 0|1>   (nodeRange with Go's int/uint32)
   borders <from> <to> <ids mid:rid,...>             -> ok <minLID> <maxLID>
@@ -129,6 +131,10 @@ def step (line : String) : String :=
     match parseRev dir, lo.toNat?, hi.toNat?, natList? xs with
     | some rev, some lo, some hi, some xs => s!"ok {fmtNats (narrow rev lo hi xs)}"
     | _, _, _, _ => "bad-op"
+  | ["hasbits", bin, l, r] =>
+    match hex? bin, l.toNat?, r.toNat? with
+    | some bin, some l, some r => s!"ok {fmtBool (SV.Bitmask.hasBitsIn bin l r)}"
+    | _, _, _ => "bad-op"
   | ["ortree", dir, ls] =>
     match parseRev dir, (splitList ls ";").mapM (natList? ·) with
     | some rev, some ls => s!"ok {fmtNats (treeFold rev ls)}"
